@@ -203,9 +203,10 @@ type pemObs struct {
 
 func observePem(content []byte) pemObs {
 	var o pemObs
-	if bytes.HasPrefix(content, []byte("#HASH:")) {
-		if nl := bytes.IndexByte(content, '\n'); nl >= 0 {
-			s := string(content[6:nl])
+	// the text between the first "#HASH:" (wherever it is) and the end of its line
+	if ix := bytes.Index(content, []byte("#HASH:")); ix >= 0 {
+		if nl := bytes.IndexByte(content[ix:], '\n'); nl >= 0 {
+			s := string(content[ix+6 : ix+nl])
 			o.HashLine = &s
 		}
 	}
@@ -239,6 +240,13 @@ type keyRegistry struct {
 	ids  map[string]int
 	keys []J
 	pubs []crypto.PublicKey
+}
+
+func (r *keyRegistry) list() []J {
+	if r.keys == nil {
+		return []J{}
+	}
+	return r.keys
 }
 
 func newKeyRegistry() *keyRegistry { return &keyRegistry{ids: map[string]int{}} }
